@@ -45,9 +45,14 @@ pub struct Work {
     /// which of the keys k0..k2 have a file "kN.a"
     pub present: Vec<bool>,
     pub phases: Vec<Phase>,
+    /// spelling of the ids (hist::id_suffix): plain, long, with a path separator, non-ASCII
+    #[serde(default)]
+    pub id_style: u8,
 }
+/// (a worker process executes one run at a time)
+static ID_STYLE_RUN: std::sync::atomic::AtomicU8 = std::sync::atomic::AtomicU8::new(0);
 fn key(i: usize) -> String {
-    format!("k{i}")
+    format!("k{i}{}", crate::hist::id_suffix(ID_STYLE_RUN.load(std::sync::atomic::Ordering::Relaxed)))
 }
 
 /// what an operation observed
@@ -165,7 +170,7 @@ impl Property for C01 {
                 Phase { threads, then }
             })
             .collect();
-        let w = Work { hot: g.chance(2, 3), variant: g.below(4) as u8, present: (0..nkeys).map(|_| g.chance(5, 6)).collect(), phases };
+        let w = Work { hot: g.chance(2, 3), variant: g.below(4) as u8, present: (0..nkeys).map(|_| g.chance(5, 6)).collect(), phases, id_style: *g.pick(&[0u8, 0, 0, 0, 1, 2, 3, 4]) };
         (knobs, serde_json::to_value(w).unwrap())
     }
     fn execute(&self, case: &Case) -> Outcome {
@@ -175,6 +180,7 @@ impl Property for C01 {
         let nt2 = nt.clone();
         let cfg = case.knobs.to_config(case.seed, case.tape.clone());
         reset_run();
+        ID_STYLE_RUN.store(w.id_style, std::sync::atomic::Ordering::Relaxed);
         let r = detsim::run(cfg, move || scenario(w, nt2));
         let nontrivial = *nt.lock().unwrap();
         outcome_from(r, nontrivial, shape, |f| f.rule())
